@@ -23,6 +23,7 @@ type Env struct {
 	entryParams bool
 	err         string
 	inOld       bool
+	eventFloor  int // events with a smaller sequence number are invisible (loop back-edge assertions)
 }
 
 func (x *Exec) envFor(st *State, fr *Frame) *Env {
@@ -473,6 +474,9 @@ func (e *Env) matchEvents(kind string, ex ast.Expr) []Event {
 	}
 	var out []Event
 	for _, ev := range e.st.events {
+		if ev.Seq < e.eventFloor {
+			continue
+		}
 		if patternMatches(pat, ev.Kind, ev.Callee, sp) {
 			out = append(out, ev)
 		}
@@ -701,8 +705,8 @@ func (e *Env) evalCall(n *ast.CallExpr) (Val, bool) {
 			return scalar(boolLit(len(e.matchEvents(kind, n.Args[0])) > 0), boolT), true
 		case "ncalls":
 			return scalar(intLit(int64(len(e.matchEvents("call", n.Args[0])))), types.Typ[types.Int]), true
-		case "lastret", "lastarg":
-			evs := e.matchEvents("call", n.Args[0])
+		case "lastret", "lastarg", "lastgoarg":
+			evs := e.matchEvents(map[bool]string{true: "go", false: "call"}[id.Name == "lastgoarg"], n.Args[0])
 			if len(evs) == 0 {
 				return e.fail("%s: no call of %s on this path", id.Name, patText(n.Args[0]))
 			}
@@ -716,7 +720,7 @@ func (e *Env) evalCall(n *ast.CallExpr) (Val, bool) {
 				idx, _ = strconv.Atoi(iv.T.S)
 			}
 			src := ev.Rets
-			if id.Name == "lastarg" {
+			if id.Name != "lastret" {
 				src = ev.Args
 			}
 			if idx >= len(src) {
@@ -845,6 +849,29 @@ func (e *Env) callSpec(sf *SpecFunc, args []Val) (Val, bool) {
 		return e.fail("spec %s: want %d arguments, got %d", sf.Name, len(sf.Params), len(args))
 	}
 	pkg := x.P.pkgOf(sf.PkgPath)
+	if sf.Body == nil {
+		// uninterpreted
+		rt, err := x.P.resolveType(sf.Ret, pkg)
+		if err != nil {
+			return e.fail("spec %s: %v", sf.Name, err)
+		}
+		rs := scalarSort(rt)
+		if rs == "" {
+			return e.fail("spec %s: uninterpreted spec functions need a scalar result", sf.Name)
+		}
+		var ts []Term
+		for i, a := range args {
+			pt, err := x.P.resolveType(sf.Params[i].Type, pkg)
+			if err != nil {
+				return e.fail("spec %s: %v", sf.Name, err)
+			}
+			if a.K == KNil {
+				a = x.zeroVal(pt)
+			}
+			ts = append(ts, x.flatTerms(a)...)
+		}
+		return scalar(x.uf("uspec!"+sf.Name, rs, ts...), rt), true
+	}
 	if !sf.Rec {
 		c := &Env{x: x, st: e.st, names: map[string]Val{}, old: e.old, cur: e.cur, pkg: pkg, inOld: e.inOld}
 		for i, p := range sf.Params {
